@@ -4,14 +4,13 @@ CONSTANTS
   HelperPath = "codable"
   Fails <- MCFails
   Extends <- MCExtends
-  Compare = "equal"
-  MaxDistinct = 3
-  MaxAfterTouch = 3
+  Compare = "prefix"
+  MaxDistinct = 9
+  MaxAfterTouch = 9
   EagerWrite = FALSE
   HelperBug = FALSE
   MaxRuns = 4
 SPECIFICATION Spec
-INVARIANT Fresh EmitHistory
+INVARIANT Fresh 
 PROPERTIES Idempotent FailedRunTouchesNothing
-CONSTRAINT HistBound
 CHECK_DEADLOCK FALSE
